@@ -80,6 +80,10 @@ def gen_cases(tier, seed):
             p = rtgen.rtap_single(rng.getrandbits(23) | 2, rng, flags=fl) if rng.random() < 0.6 else rtgen.rtap_multi(rng, with_flags=fl)
             tail = bytes(rng.randrange(256) for _ in range(4)) if fl & 0x10 and rng.random() < 0.8 else b""
             cases.append("classify 1 " + hx(p + fr + tail))
+    # the radiotap argument is an int: any non-zero value means "radiotap present"
+    for rtv in (2, -1, 255, 65536):
+        cases.append("classify %d 000009000200000010b4000102030405060708" % rtv)
+        cases.append("classify %d 8000" % rtv + "00" * 22)
     return cases, {"plain_grid": n_plain, "radiotap_prefixes": len(pre), "random": nr, "total": len(cases)}
 
 
